@@ -193,8 +193,20 @@ def table_writer_rule(run, ast, rule):
                     init = [d.get("init") for y in astq.walk(f["body"]) if y.get("k") == "DeclStmt" for d in y["decls"] if d["did"] == did]
                     reas = [y["c"][1] for y in astq.walk(f["body"]) if y.get("k") == "BinaryOperator" and y.get("op") == "=" and astq.strip(y["c"][0]).get("k") == "DeclRefExpr" and astq.strip(y["c"][0])["ref"]["did"] == did]
                     from_id = bool(init) and init[0] is not None and any(x.get("k") in ("UnaryOperator", "CXXOperatorCallExpr") and (x.get("op") == "*" or x.get("oop") == "*") for x in astq.walk(init[0]))
-                    rehash_ok = all(astq.strip(r0).get("k") == "CallExpr" and (astq.strip(r0).get("callee") or "").endswith("::hash_type_id") and
-                                    astq.strip(astq.strip(r0)["c"][1]).get("k") == "DeclRefExpr" and astq.strip(astq.strip(r0)["c"][1])["ref"]["did"] == did for r0 in reas)
+                    def is_hash_of_key(r0):
+                        r0 = astq.strip(r0)
+                        if r0.get("k") == "CallExpr" and (r0.get("callee") or "").endswith("::hash_type_id"):
+                            a0 = astq.strip(r0["c"][1])
+                            return a0.get("k") == "DeclRefExpr" and a0["ref"]["did"] == did
+                        he = crules._hash_expr(r0)          # the formula hash_type_id computes, written out
+                        if he == (("ID", "hash_mult"), "hash_shift"):
+                            return any(x.get("k") == "DeclRefExpr" and x["ref"]["did"] == did for x in astq.walk(r0))
+                        return None if astq.affine(r0) is None else False
+                    verdicts = [is_hash_of_key(r0) for r0 in reas]
+                    if any(v is None for v in verdicts):
+                        run.broken.append("%s: the key of the published v-table pointer is recomputed in a form the rule does not classify" % crules.short(f)[:80])
+                        verdicts = [True for v in verdicts]
+                    rehash_ok = all(verdicts)
                     key_ok = from_id and rehash_ok and (bool(reas) == hashed)
                 else:
                     key_ok = k0.get("k") in ("UnaryOperator", "CXXOperatorCallExpr") and (k0.get("op") == "*" or k0.get("oop") == "*")
